@@ -166,6 +166,13 @@ fn generate_g(seed: u64, _quick: bool) -> Value {
                 ("(set! vector-ref (lambda (v i) 'mine))", "(vector-ref (vector 1 2) 0)"),
                 ("(set! null? pair?)", "(append '(1 2) '(3))"),
                 ("(define list vector)", "(list 1 2)"),
+                // variables that carry the names of derived forms
+                ("(define when 5)", "(cond (#f 1) (else 2))"),
+                ("(define (cond x) x)", "(let ((a 1)) (+ a 1))"),
+                ("(define let 1)", "(and 1 (or #f 2))"),
+                ("(define and car)", "(append '(1) '(2))"),
+                // a library of this instance that works on the native layer directly and assigns there
+                ("(import (iso raw))", "(raw-spoil!)"),
             ]);
             let at = rng.upto(forms.len() + 1);
             forms.insert(at, json!({"t": spoil, "k": "spoil-base"}));
@@ -176,7 +183,7 @@ fn generate_g(seed: u64, _quick: bool) -> Value {
         } else if rng.chance(1, 3) {
             // ... and programs that only look at those names, while a neighbour may spoil them
             for _ in 0..rng.range(1, 3) {
-                let probe = *rng.pick(&["(car '(1 2 3))", "(+ 5 3)", "(append '(1) '(2))", "(map car '((1) (2)))", "(vector-ref (vector 1 2) 0)", "(list 1 2)"]);
+                let probe = *rng.pick(&["(car '(1 2 3))", "(+ 5 3)", "(append '(1) '(2))", "(map car '((1) (2)))", "(vector-ref (vector 1 2) 0)", "(list 1 2)", "(cadr '(1 2 3))", "(list-tail '(1 2 3) 1)", "(cond (#f 1) (else 2))", "(when #t 1 2)"]);
                 let at = rng.upto(forms.len() + 1);
                 forms.insert(at, json!({"t": probe, "k": "probe-base"}));
             }
@@ -403,6 +410,18 @@ fn make_instance(prog: &Value, dir: &PathBuf) -> Result<Inst, crate::hashseed::P
                 ]
             }),
         ));
+    }
+    // a library that imports the native layer itself and assigns one of its names (an
+    // implementation may refuse it; whatever it does stays inside this instance)
+    {
+        let text = "(define-library (iso raw) (import (ruschm base)) (export raw-spoil! raw-car) (begin (define (raw-spoil!) (set! car cdr) 0) (define (raw-car l) (car l))))";
+        let lname = library_name_of(&["iso", "raw"]);
+        let it = &mut sys.it;
+        let _ = guarded(|| {
+            if let Ok(f) = LibraryFactory::from_char_stream(&lname, text.chars()) {
+                it.register_library_factory(f);
+            }
+        })?;
     }
     // a library registered with this instance alone, under a name of its own
     if let Some(w) = prog["who"].as_str() {
